@@ -1,8 +1,28 @@
--- GENERATED by /verif/go/extract from /repo/warcfile.go: do not edit
-namespace Gowarc.Gen
+/-
+  The synchronisation skeleton of warcfile.go that the model `Proto` (Model/Proto.lean) was written from, function by
+  function. How the model reads it:
 
-/-- function ↦ its synchronisation events in syntactic order -/
-def syncSkeleton : List (String × List String) := [
+  * NewWarcFileWriter — four unbuffered channels (closing, closed, middleCh, jobs); the dispatcher goroutine: `for { select
+    { recv closing -> exit(nil,false) ; recv middleCh -> select { recv closing -> exit(v,true) ; send jobs } } }` is
+    DPc.d0 / DPc.d1 with steps cSignal0, wSend, cSignal1, dForward; `exit` = close closed; (if needSend: send jobs);
+    close jobs — DPc.dx and step dLast, then DPc.dend; one `go worker` per writer.
+  * worker — `range jobs { for records { w.Write } ; send responses }` then deferred `w.Close(); wg.Done()`:
+    WPc.k0 → k1 (dForward/dLast) → k2 (kWork) → k0 (kReply); k0 → k3 (kExit, jobs closed) → kend (kClose).
+  * WarcFileWriter.Write — `select { recv closed -> return nil ; default }`, createWriteJob (unbuffered result channel),
+    `select { recv closed -> return nil ; send middleCh -> return recv result }`: steps wStartClosed / wStart, wGiveUp,
+    wSend, kReply.
+  * WarcFileWriter.Close — `select { send closing -> recv closed ; recv closed }`, wg.Wait: cSignal0/cSignal1/cStartClosed,
+    cDone.
+  * WarcFileWriter.Rotate — Close of every single writer in turn: step rotate.
+  * singleWarcFileWriter.Write/Close take writeLock and release it by defer; write / close / writeRecord (the continuation
+    path calls the lock-free `write`) never touch the lock: the per-file critical sections are finite and never nested,
+    which is why kWork and rotate are single steps of the model.
+
+  `C10_skeleton` (Props/C10skel.lean) states that the skeleton regenerated from /repo on this run is this one.
+-/
+namespace Gowarc.Proto
+
+def expectedSkeleton : List (String × List String) := [
   ("NewWarcFileWriter", ["makechan struct{} buffered=0", "makechan struct{} buffered=0", "makechan *job buffered=0", "makechan *job buffered=0", "wg.add w.shutWriters", "go[", "func[", "func[", "close w.closed", "if[", "send w.jobs", "]", "close w.jobs", "]", "for[", "select[", "case[", "recv w.closing", "]then[", "call exit", "return", "]", "case[", "recv w.middleCh", "]then[", "select[", "case[", "recv w.closing", "]then[", "call exit", "return", "]", "case[", "send w.jobs", "]then[", "]", "]", "]", "]", "]", "]", "]", "for[", "go[", "call worker", "]", "]", "return"]),
   ("worker", ["defer[", "func[", "call w.Close", "wg.done w.shutWriters", "]", "]", "range jobs[", "range j.records[", "call w.Write", "]", "send j.responses", "]"]),
   ("WarcFileWriter.Write", ["select[", "case[", "recv w.closed", "]then[", "return nil", "]", "default[", "]", "]", "call w.createWriteJob", "select[", "case[", "recv w.closed", "]then[", "return nil", "]", "case[", "send w.middleCh", "]then[", "recv result", "return", "]", "]"]),
@@ -16,4 +36,5 @@ def syncSkeleton : List (String × List String) := [
   ("singleWarcFileWriter.writeRecord", ["if[", "call w.gz.Close", "]", "if[", "call w.write", "return", "]", "return"])
 ]
 
-end Gowarc.Gen
+
+end Gowarc.Proto
